@@ -40,7 +40,7 @@
 use std::iter::Sum;
 use std::ops::{AddAssign, DivAssign, MulAssign, Range, SubAssign};
 
-use nalgebra::{Const, DMatrix, Dynamic, Matrix, OMatrix, RowDVector, Scalar, VecStorage, U1};
+use nalgebra::{DMatrix, Dynamic, Matrix, OMatrix, RowDVector, Scalar, VecStorage, U1};
 
 use crate::linalg::cholesky::CholeskyDecomposableMatrix;
 use crate::linalg::evd::EVDDecomposableMatrix;
@@ -197,8 +197,13 @@ impl<T: RealNumber + Scalar + AddAssign + SubAssign + MulAssign + DivAssign + Su
     }
 
     fn to_row_vector(self) -> Self::RowVector {
+        // row-major flattening; the storage itself is column-major, so reshaping it in place would permute
         let (nrows, ncols) = self.shape();
-        self.reshape_generic(Const::<1>, Dynamic::new(nrows * ncols))
+        let mut raw_v = Vec::with_capacity(nrows * ncols);
+        for row in self.row_iter() {
+            raw_v.extend(row.iter().copied());
+        }
+        RowDVector::from_vec(raw_v)
     }
 
     fn get(&self, row: usize, col: usize) -> T {
